@@ -34,6 +34,7 @@ type Engine struct {
 	modPkgs       []string
 	transparent   map[string]bool // abstract predicates being expanded (footprint probing)
 	preserved     []Preserved
+	readers       []ReadersClause
 	internal      map[string][]string // function -> packages that may call it
 	fpCache       map[string]map[string]bool
 	orderSkip     map[string]string
